@@ -40,6 +40,16 @@ CHECKS = {
    text="LwCache models configuration, comparison snapshot, cached and continuous distribution of Sampler and QuickSampler and the Analyzer's result attributes, with a Variant constant for the mechanism. TLC explores the COMPLETE state graph (all interleavings of reconfigurations, in-place edits and reads, no depth bound): the mechanism of the pinned tree is refuted (model-derived minimal histories are stored in the evidence), the repaired mechanism satisfies Fresh and AnalysisOwn. Behaviours of the specification are replayed on one long-lived real object and after every read its answer is compared with a freshly created object with the same settings (the property verbatim).",
    note="The replay world is fixed (two lossy heralded 3-mode circuits differing only in herald photon number, one shared Parameter, one PostSelection object, two inputs, two brightness values, two back-ends). " + TB,
    technique="TLC on LwCache (complete state graph, action property Fresh keyed on the read label); simulate behaviours replayed against fresh objects"),
+ "C06": dict(
+   level="model_checking", design="DESIGN.md section 5 C06",
+   text="LwSource is the property's construction as a state machine: photon after photon one of six emission outcomes with the documented rational weights; TLC's terminal states are exactly the emission patterns with exact weight and exact per-pattern output distribution (mode-wise convolution of the independent boson-sampling distributions of the mutually distinguishable groups, computed from the exact circuit matrix). TLC checks the outcome table sums to one and g2 = 1 - purity (ASSUME), every pattern's distribution is normalised, perfect settings give the ideal input, zero indistinguishability never populates the indistinguishable group; the harness sums the terminal states and compares with Source._build_statistics (as multisets of photon groups) and with the Sampler's distribution on both back-ends; HOM coincidence = (1 - indistinguishability)/2 is checked exactly on the aggregated model.",
+   note="Rational parameter grid (brightness 1/2, 3/4, 1; two-photon weight 0, 1/7, 1/3; sqrt(indistinguishability) 0, 1/2, 3/4, 1), <= 3 photons, circuits with dyadic probabilities; continuous triples go through the evaluator (same definition with floats, calibrated against TLC each run). probability_threshold not exercised. " + TB,
+   technique="TLC enumerates LwSource emission patterns with exact rational weights; aggregated terminal states compared with Source / Sampler; calibrated evaluator for continuous parameters"),
+ "C07": dict(
+   level="other", design="DESIGN.md section 5 C07",
+   text="LwSampling models one sample through draw -> efficiency -> dark counts -> threshold -> herald check on the detected pattern -> herald removal -> post-selection -> min detection with exact rational branch weights; TLC checks the safety clauses on every emitted state of every branch and its terminal states ARE the exact detected / heralded / post-selected distribution. The real sample_N_inputs / sample_N_outputs / sample (Sampler and QuickSampler) results must contain only states the specification emits, have exactly N samples where required, be reproducible for a fixed seed, and pass a per-cell z-test (|z| <= 7) against the exact values, as must the accepted fraction.",
+   note="Convergence itself is statistical: the specification supplies the exact distribution, the decision on frequencies is a hypothesis test (false-alarm probability < 3e-12 per cell for a fresh seed; deterministic for a fixed VERIF_SEED). sample_N_outputs is in scope for efficiency 1, p_dark 0. Known finding F12 (Sampler.sample on heralded circuits) is recorded, not repaired. " + TB,
+   technique="TLC on LwSampling (all branches, exact weights) supplies safety verdicts and the reference distribution; hypothesis test on the implementation's frequencies"),
  "C10": dict(
    level="model_checking", design="DESIGN.md section 5 C10",
    text="LwParams (value / min / max, ParameterDict) is checked exhaustively by TLC over ALL interleavings of accepted and rejected updates (no depth bound; invariants InBounds, BoundsNumeric; action property RejectedChangesNothing) and its behaviours are replayed into real Parameter / ParameterDict objects with the full state compared after every call. LwCircuit carries parameter references in its ops and a pval variable: TLC checks LiveParams (every circuit's exact matrix is the one for the current values after ANY step, including Parameter.set, rewrites, additions, copies), FrozenProp and frames; dumped and simulated programs are replayed and U, get_all_params and compile errors compared.",
